@@ -18,7 +18,7 @@ import shutil
 import subprocess
 import time
 
-from checks import frontend_common as fc
+from checks import c07, frontend_common as fc
 from vf import build, express, tlc
 from vf.common import REPO, InfraError, mkdir
 
@@ -91,7 +91,7 @@ def run(ctx):
         inputs.append(("%s:%s" % ("mutant:" + m["class"] if m else "valid", tag), p, m))
     # every single-token mutant (deleted, doubled, swapped, undeclared name, misplaced keyword, literal for name) of the
     # richest schemas of the family (spec/TokMut.tla)
-    for tag, p, expect, m, c in fc.token_inputs(ctx, fc.gen(ctx, with_mutants=False)[0], wd, 2 if ctx.quick else 8, 1 if ctx.quick else 4):
+    for tag, p, expect, m, c in fc.token_inputs(ctx, fc.gen(ctx, with_mutants=False)[0], wd, 2 if ctx.quick else 8, 1 if ctx.quick else 4, extra=[("statements", c07.statement_host())]):
         inputs.append(("token:%s:%s" % (m["class"], tag), p, m))
     # byte-level truncations and mutations of one valid schema
     # (decorated with the tokens whose end the scanner has to look for: tail and embedded remarks, strings)
